@@ -33,13 +33,17 @@ type Edit struct {
 	File string `json:"file"`
 	Old  string `json:"old"`
 	New  string `json:"new"`
+	// Start/End: byte offsets of Old in the file (End > 0: offset-addressed edit, used by the
+	// mutation sweep; the text at the offsets must equal Old).
+	Start int `json:"start,omitempty"`
+	End   int `json:"end,omitempty"`
 }
 
 // overlay builds the overlay of a mutant; msg is non-empty when it does not apply.
 func (m Mutant) overlay(repo string) (map[string][]byte, string) {
 	edits := m.Edits
 	if m.File != "" {
-		edits = append([]Edit{{m.File, m.Old, m.New}}, edits...)
+		edits = append([]Edit{{File: m.File, Old: m.Old, New: m.New}}, edits...)
 	}
 	out := map[string][]byte{}
 	for _, e := range edits {
@@ -51,6 +55,13 @@ func (m Mutant) overlay(repo string) (map[string][]byte, string) {
 				return nil, err.Error()
 			}
 			src = b
+		}
+		if e.End > 0 {
+			if e.End > len(src) || string(src[e.Start:e.End]) != e.Old {
+				return nil, fmt.Sprintf("offset edit does not match %s", e.File)
+			}
+			out[path] = []byte(string(src[:e.Start]) + e.New + string(src[e.End:]))
+			continue
 		}
 		if n := strings.Count(string(src), e.Old); n != 1 {
 			return nil, fmt.Sprintf("anchor text occurs %d times in %s", n, e.File)
